@@ -463,4 +463,46 @@ theorem tcall_keeps_tables (st : TState Out) (t : Nat) :
 
 end
 
+/-! ### returned arrays -/
+
+/-- all returned buffers exist and no two calls returned the same one -/
+def RInv (st : RState) : Prop :=
+  (∀ b ∈ st.results, b < st.bufs.length) ∧ st.results.Nodup
+
+theorem rinv_init : RInv initR := by
+  constructor
+  · intro b hb; simp [initR] at hb
+  · simp [initR]
+
+theorem rinv_step (p : Val) (st : RState) (op : ROp) (hI : RInv st) :
+    RInv (stepR .fresh p st op).1 := by
+  cases op with
+  | write r v =>
+    simp only [stepR]
+    cases st.results[r]? with
+    | none => exact hI
+    | some b => exact ⟨by simpa using hI.1, hI.2⟩
+  | call =>
+    simp only [stepR]
+    constructor
+    · intro b hb
+      simp only [List.mem_append, List.mem_singleton] at hb
+      simp only [List.length_append, List.length_singleton]
+      rcases hb with hb | hb
+      · have := hI.1 b hb; omega
+      · omega
+    · rw [List.nodup_append]
+      refine ⟨hI.2, by simp, ?_⟩
+      intro a ha b hb
+      simp only [List.mem_singleton] at hb
+      have := hI.1 a ha
+      omega
+
+theorem rinv_run (p : Val) : ∀ (hist : List ROp) (st : RState), RInv st →
+    RInv (runR .fresh p st hist) := by
+  intro hist
+  induction hist with
+  | nil => intro st h; exact h
+  | cons op ops ih => intro st h; exact ih _ (rinv_step p st op h)
+
 end OQuPyVerif.Aliasing
